@@ -385,6 +385,15 @@ func runOne(r *driver.Run) {
 	options := new(graph.CanonicalOptions)
 	r.Must("NewStorage", budget, func() { storage = graph.NewStorage(N, M) })
 	r.Must("NewOrderedPartition", budget, func() { op = graph.NewOrderedPartition(N, M, nil) })
+	var prevFull struct {
+		set     bool
+		n       int
+		perm    []int
+		ds      disjoint.Set
+		gens    [][]int
+		was     answer
+		changed string
+	}
 	var prev *model.G
 	prevN := 0
 	interrupted, reused, sizeChanges := 0, 0, 0
@@ -463,7 +472,19 @@ func runOne(r *driver.Run) {
 				r.Must("CanonicalIsomorphFull", budget, func() {
 					p, ds, gens := graph.CanonicalIsomorphFull(toDense(g), copyClasses(classes))
 					full = capture(n, p, ds, gens)
+					// what CanonicalIsomorphFull returned for the PREVIOUS request belongs to the caller
+					// and must not have been touched by this call
+					if prevFull.set {
+						now := capture(prevFull.n, prevFull.perm, prevFull.ds, prevFull.gens)
+						if !now.equal(prevFull.was) {
+							prevFull.changed = fmt.Sprintf("was %s, now %s", prevFull.was, now)
+						}
+					}
+					prevFull.set, prevFull.n, prevFull.perm, prevFull.ds, prevFull.gens, prevFull.was = true, n, p, ds, gens, full
 				})
+				if prevFull.changed != "" {
+					r.Fail("earlier-result-corrupted", "result of an earlier CanonicalIsomorphFull call changed", "%s: the values returned by the previous CanonicalIsomorphFull call changed during this call: %s", what, prevFull.changed)
+				}
 				if !got.equal(full) {
 					r.Fail("reuse-differs", "reused storage differs from CanonicalIsomorphFull", "%s: reused: %s; CanonicalIsomorphFull: %s", what, got, full)
 				}
